@@ -693,6 +693,15 @@ class TaskDispatcher(object):
                         current message.
                         """
                         message.acknowledge(multiple=False)
+                    else:
+                        """
+                        Any other response with the correlation ID of a stored
+                        orphaned response is a duplicate (e.g. a processor that
+                        was redelivered its request and answered again): retain
+                        the stored one and acknowledge the current message, it
+                        would otherwise stay unacknowledged for ever.
+                        """
+                        message.acknowledge(multiple=False)
                 else:
                     """
                     Defer logging and acknowledging any "orphaned" response messages
